@@ -72,6 +72,7 @@ type emitter struct {
 	fallback  int
 	nResp     int
 	nNeg      int
+	nGarbage  int
 	floatSeen map[uint64]bool
 }
 
@@ -172,6 +173,131 @@ func (e *emitter) geomCase(id, class string, zero bool, g geom.Geometry, r *lib.
 	if m, ok := toModel(trail); ok {
 		e.line(id+".t", "T", m, parseDump(trail))
 	}
+	// trailing garbage: lexically invalid numerals, stray punctuation, control characters, invalid
+	// UTF-8, very long tokens.  Mostly outside the model's alphabet: judged by SPEC (any non-blank
+	// trailing content is an error), compared with the model only where expressible.
+	nG := 3
+	if strings.HasPrefix(class, "zero") {
+		nG = len(garbage)
+	}
+	for k := 0; k < nG; k++ {
+		gi := r.Intn(len(garbage))
+		if nG == len(garbage) {
+			gi = k
+		}
+		sep := []string{" ", "", "\n", "\t "}[r.Intn(4)]
+		tail := garbage[gi].text
+		if r.Chance(1, 3) {
+			tail += []string{" LINESTRING(0 0,1 1)", " )", " 1 2", "\n"}[r.Intn(4)]
+		}
+		s := text + sep + tail
+		m, ok := toModel(s)
+		if !ok {
+			m = "UNREP"
+		}
+		var sh strings.Builder
+		hexChars(&sh, clip(s, 400))
+		e.nGarbage++
+		e.line(fmt.Sprintf("%s.g%d", id, k), "TG", garbage[gi].name, sh.String(), m, parseDump(s), parseValidated(s))
+	}
+}
+
+func clip(s string, n int) string {
+	if len(s) > n {
+		return s[:n/2] + "..." + s[len(s)-n/2:]
+	}
+	return s
+}
+
+func parseValidated(s string) (out string) {
+	defer func() {
+		if recover() != nil {
+			out = "PANIC"
+		}
+	}()
+	g, err := geom.UnmarshalWKT(s)
+	if err != nil {
+		return "ERR"
+	}
+	return lib.Dump(g)
+}
+
+var garbage = []struct{ name, text string }{
+	{"num_08", "08"}, {"num_09", "09"}, {"num_0189", "0189"}, {"num_1e", "1e"}, {"num_1e+", "1e+"}, {"num_1E-", "1E-"},
+	{"num_0x", "0x"}, {"num_0b2", "0b2"}, {"num_0o8", "0o8"}, {"num_1__0", "1__0"}, {"num_1_", "1_"}, {"num_.e1", ".e1"},
+	{"num_0x1p", "0x1p"}, {"num_0x.p1", "0x.p1"}, {"num_1.5e", "1.5e"},
+	{"quote", "\""}, {"quote_open", "\"abc"}, {"squote", "'"}, {"backslash", "\\"}, {"backquote", "`"}, {"semicolon", ";"},
+	{"hash", "#"}, {"slash_comment", "// x"}, {"block_comment", "/* x */"}, {"dot", "."}, {"minus", "-"}, {"plus", "+"},
+	{"nul", "\x00"}, {"bell", "\x07"}, {"vtab", "\v"}, {"formfeed", "\f"}, {"esc", "\x1b"}, {"del", "\x7f"},
+	{"utf8_ff", "\xff"}, {"utf8_c3_28", "\xc3\x28"}, {"utf8_trunc", "\xe2\x82"}, {"utf8_overlong", "\xc0\xaf"},
+	{"bom", "\xef\xbb\xbf"}, {"nbsp", "\u00a0"}, {"unicode_letter", "\u00e9"}, {"unicode_digit", "\u0663"},
+	{"long_ident", strings.Repeat("x", 20000)}, {"long_digits", strings.Repeat("9", 5000)}, {"long_parens", strings.Repeat(")", 3000)},
+	{"long_bad_num", "0" + strings.Repeat("8", 3000)},
+}
+
+// deepColl builds a tree in which every inner node is a GeometryCollection with 2..4 children, the
+// children mixing small leaves and further collections in random order, depth 3..5; all leaves are
+// distinct (ordinates from a counter), so that a replaced or duplicated member shows in the dump.
+func deepColl(r *lib.Rng, st *lib.GenStats) *lib.Node {
+	ct := geom.DimXY
+	if r.Chance(1, 4) {
+		ct = geom.CoordinatesType(r.Intn(4))
+	}
+	counter := 0.0
+	vertex := func() [4]float64 {
+		counter++
+		var v [4]float64
+		v[0], v[1] = counter, -counter
+		if ct.Is3D() {
+			v[2] = counter + 0.5
+		}
+		if ct.IsMeasured() {
+			v[3] = counter + 0.25
+		}
+		st.Verts++
+		st.FloatCls[0] += ct.Dimension()
+		return v
+	}
+	leaf := func() *lib.Node {
+		st.CTs[ct]++
+		switch r.Intn(6) {
+		case 0:
+			st.Kinds[lib.KLine]++
+			return &lib.Node{Kind: lib.KLine, CT: ct, C: [][4]float64{vertex(), vertex()}}
+		case 1:
+			st.Kinds[lib.KMPoint]++
+			return &lib.Node{Kind: lib.KMPoint, CT: ct, Kids: []*lib.Node{{Kind: lib.KPoint, CT: ct, Full: true, C: [][4]float64{vertex()}}}}
+		default:
+			st.Kinds[lib.KPoint]++
+			return &lib.Node{Kind: lib.KPoint, CT: ct, Full: true, C: [][4]float64{vertex()}}
+		}
+	}
+	var build func(depth int) *lib.Node
+	build = func(depth int) *lib.Node {
+		st.Kinds[lib.KColl]++
+		st.CTs[ct]++
+		n := &lib.Node{Kind: lib.KColl, CT: ct}
+		k := r.Range(2, 4)
+		forced := -1
+		if depth > 1 {
+			forced = r.Intn(k) // at least one child continues to the target depth
+		}
+		for i := 0; i < k; i++ {
+			if depth > 1 && (i == forced || r.Chance(2, 5)) {
+				n.Kids = append(n.Kids, build(depth-1))
+			} else {
+				n.Kids = append(n.Kids, leaf())
+			}
+		}
+		return n
+	}
+	n := build(r.Range(3, 5))
+	d := n.Depth()
+	if d > 7 {
+		d = 7
+	}
+	st.Depth[d]++
+	return n
 }
 
 // floatCase validates the number oracle on one double: shortest 'f' spelling reads back to the
@@ -257,6 +383,9 @@ func main() {
 		case 7, 8:
 			class = "kind" + lib.KindTag[(i/10)%7]
 			n = cfg.GenKind(r, lib.Kind((i/10)%7), &st)
+		case 4:
+			class = "deepcoll"
+			n = deepColl(r, &st)
 		case 9:
 			class = "emptyring"
 			n = cfg.GenKind(r, []lib.Kind{lib.KPoly, lib.KMPoly, lib.KColl}[(i/10)%3], &st)
@@ -283,7 +412,7 @@ func main() {
 	stats := map[string]interface{}{"classes": classes, "kinds": st.Kinds, "ctypes": st.CTs,
 		"float_classes": st.FloatCls, "float_class_names": lib.FloatClassNames,
 		"empty_nodes": st.EmptyNodes, "empty_members": st.EmptyKids, "depth_hist": st.Depth, "vertices": st.Verts,
-		"respellings": e.nResp, "negatives": e.nNeg, "unrepresentable_skipped": e.unrep,
+		"respellings": e.nResp, "negatives": e.nNeg, "trailing_garbage": e.nGarbage, "garbage_kinds": len(garbage), "unrepresentable_skipped": e.unrep,
 		"number_respell_fallbacks": e.fallback, "floats_checked": len(e.floatSeen),
 		"respellings_per_text": nResp, "mutations_per_text": nNeg}
 	js, _ := json.Marshal(stats)
